@@ -629,3 +629,15 @@ spec fn lex_le(a: Seq<int>, b: Seq<int>) -> bool
     else { lex_le(a.skip(1), b.skip(1)) }
 }
 
+
+// the closure of BlockTree::get_chain_with_tip (blocktree.rs:434) that turns the reversed vector into a BlockChain
+//@slice file=canister/src/blocktree.rs in="impl<Block: ChainBlock> BlockTree<Block>" item="fn get_chain_with_tip" block_after=".map(|(mut chain, tip_successors)| {" props=C01,C06
+//@ head
+//@| // R8 slice: body of the closure passed to Option::map in get_chain_with_tip
+//@| fn get_chain_with_tip_closure<'a, Block>(mut chain: Vec<&'a Block>, tip_successors: Vec<&'a Block>) -> (r: (BlockChain<'a, Block>, Vec<&'a Block>))
+//@|     requires chain@.len() >= 1,
+//@|     ensures
+//@|         // the chain handed to the page walk is the branch from the anchor to the named tip, anchor first
+//@|         r.0@ =~= rev_refs(chain@),
+//@|         r.1@ == tip_successors@,
+//@end
